@@ -1208,11 +1208,13 @@ func (sdb *DbSqlite) userCheck(email, password string) (data.Nodes, error) {
 			return false, err
 		}
 
+	NextEdge:
 		for _, e := range edges {
 			// make sure edge is not tombstone
 			for _, p := range e.Points {
 				if p.Type == data.PointTypeTombstone && p.Value != 0 {
-					return false, nil
+					// this edge is deleted, look at the next one
+					continue NextEdge
 				}
 			}
 
